@@ -205,6 +205,23 @@ CHECKS['C12'] = (
     'single pair only, as in the property.',
     'DESIGN.md 3/C12')
 
+CHECKS['C13'] = (
+    'deviation-bounded enumeration of line system x receiver-noise x penalty-table x threshold-pattern x request configurations '
+    'through the real planning(), independent receiver model on the recorder\'s last snapshot + differential oracle for '
+    'automatic mode selection',
+    'Within 2 (quick) / 3 (thorough) deviations over line system (incl. negative-dispersion and dispersion-slope fibres), '
+    'asymmetric reverse direction, ROADM add/drop noise (scalar 30/38/100 dB or per-band add/drop profiles), system margin, '
+    'transmitter OSNR, penalty tables placed around the measured CD/PMD/PDL (inside, above the last breakpoint, below the first, '
+    'per-channel steep), threshold pattern of a 5-mode transceiver placed +-0.3 / +-3 dB around the measured metric, request '
+    'spacing (fits all / some / one / no mode), bidirectionality and a mode with an equalisation offset: every fixed-mode '
+    'request must be blocked iff min over channels of (receiver GSNR in 0.1 nm with tx OSNR and each add/drop once - '
+    'interpolated penalties, infinite outside the table) < OSNR + margin in a required direction; the automatic request must '
+    'return the highest-ranked fitting mode that is feasible, NO_FEASIBLE_MODE or NO_FEASIBLE_BAUDRATE_WITH_SPACING otherwise; '
+    'receiver figures must equal the model (no accumulation over the mode loop).',
+    'Line GSNR and impairments are read from the recorder (C01-C06 judge them); metrics within 0.006 dB of the threshold are '
+    'unjudged. One open known finding (modes of one baud rate with different equalisation offsets).',
+    'DESIGN.md 3/C13')
+
 ALL = [f'C{i:02d}' for i in range(1, 21)]
 NOT_BUILT_REASON = 'check not built yet in this round (planned, see DESIGN.md section 3); not claimed until it runs'
 
